@@ -38,8 +38,13 @@ class Seq:
 
 
 class Fun:
-    def __init__(self, params, body, env, defaults=None):
+    """closure; params = positional-capable names (positional-only first) followed by keyword-only names; npos = how many of them can be
+    given positionally, nposonly = how many only positionally; vararg / kwarg = names of *args / **kwargs (or None)"""
+
+    def __init__(self, params, body, env, defaults=None, npos=None, nposonly=0, vararg=None, kwarg=None):
         self.params, self.body, self.env, self.defaults = params, body, env, defaults or {}
+        self.npos = len(params) if npos is None else npos
+        self.nposonly, self.vararg, self.kwarg = nposonly, vararg, kwarg
 
 
 class _None:
@@ -295,13 +300,25 @@ def need_fun(v, what):
 
 
 def call_fun(cx, f, args, kwargs, pc):
-    if len(args) > len(f.params):
-        raise EncodingError("too many arguments for lambda")
+    "binds as python binds; a call python would refuse (TypeError) is not encodable"
+    extra = ()
+    if len(args) > f.npos:
+        if f.vararg is None:
+            raise EncodingError("too many arguments for lambda")
+        extra, args = tuple(args[f.npos:]), args[:f.npos]
     bound = dict(zip(f.params, args))
+    kwextra = {}
     for k, v in kwargs.items():
-        if k not in f.params or k in bound:
+        if k in f.params[f.nposonly:] and k not in bound:
+            bound[k] = v
+        elif f.kwarg is not None and k not in f.params[f.nposonly:]:
+            kwextra[k] = v
+        else:
             raise EncodingError("bad keyword argument %s" % k)
-        bound[k] = v
+    if f.vararg is not None:
+        bound[f.vararg] = extra
+    if f.kwarg is not None:
+        bound[f.kwarg] = kwextra
     for p in f.params:
         if p not in bound:
             if p in f.defaults and f.defaults[p] is not None:
@@ -404,7 +421,11 @@ def ev_args(cx, call, env, pc):
     args = []
     for a in call.args:
         if isinstance(a, ast.Starred):
-            raise EncodingError("starred argument")
+            v = ev(cx, a.value, env, pc)
+            if not isinstance(v, tuple):
+                raise EncodingError("starred argument that is not a positional record")
+            args += list(v)
+            continue
         args.append(ev(cx, a, env, pc))
     kwargs = {}
     for k in call.keywords:
@@ -433,9 +454,7 @@ def ev(cx, n, env, pc):
         return const_value(cx, n.value)
     if isinstance(n, ast.Lambda):
         a = n.args
-        if a.vararg or a.kwarg or a.posonlyargs:
-            raise EncodingError("lambda with special parameters")
-        pos = [x.arg for x in a.args]
+        pos = [x.arg for x in a.posonlyargs + a.args]
         params = pos + [x.arg for x in a.kwonlyargs]
         defaults = {}
         for p, d in zip(pos[len(pos) - len(a.defaults):], a.defaults):
@@ -443,9 +462,18 @@ def ev(cx, n, env, pc):
         for x, d in zip(a.kwonlyargs, a.kw_defaults):
             if d is not None:
                 defaults[x.arg] = ev(cx, d, env, pc)
-        return Fun(params, n.body, env, defaults)
+        return Fun(params, n.body, env, defaults, npos=len(pos), nposonly=len(a.posonlyargs), vararg=a.vararg.arg if a.vararg else None, kwarg=a.kwarg.arg if a.kwarg else None)
     if isinstance(n, (ast.Tuple, ast.List)):
-        return tuple(ev(cx, e, env, pc) for e in n.elts)
+        out = []
+        for e in n.elts:
+            if isinstance(e, ast.Starred):
+                v = ev(cx, e.value, env, pc)
+                if not isinstance(v, tuple):
+                    raise EncodingError("starred element that is not a positional record")
+                out += list(v)
+            else:
+                out.append(ev(cx, e, env, pc))
+        return tuple(out)
     if isinstance(n, ast.Dict):
         out = {}
         for k, v in zip(n.keys, n.values):
@@ -603,12 +631,26 @@ def comprehension(cx, elt, gens, env, pc):
     return Seq(out)
 
 
+OP_PARAM = {"Select": "f", "SelectMany": "func", "Where": "filter"}     # the one parameter of the stream operators, as ObjectStream names it
+
+
+def seq_op_kw(cx, op, seq, pos_args, keywords, env, pc):
+    "operator call that hands its lambda over by keyword: Op(seq, f=lambda ...) / seq.Op(f=lambda ...)"
+    if op not in OP_PARAM or pos_args or len(keywords) != 1 or keywords[0].arg != OP_PARAM[op]:
+        raise EncodingError("operator call with keywords")
+    if seq is Poison:
+        return Poison
+    return seq_op(cx, op, seq, [ev(cx, keywords[0].value, env, pc)], pc)
+
+
 def ev_call(cx, n, env, pc):
     f = n.func
     # operators, function form: Op(seq, ...)
     if isinstance(f, ast.Name) and f.id not in env and (f.id in OPERATORS or f.id in RESULTS):
-        if not n.args or n.keywords:
+        if not n.args:
             raise EncodingError("operator call shape")
+        if n.keywords:
+            return seq_op_kw(cx, f.id, ev(cx, n.args[0], env, pc), n.args[1:], n.keywords, env, pc)
         if f.id in RESULTS:
             inner = ev(cx, n.args[0], env, pc)
             lits = []
@@ -633,7 +675,7 @@ def ev_call(cx, n, env, pc):
             return Poison
         if isinstance(recv, Seq):
             if n.keywords:
-                raise EncodingError("operator call with keywords")
+                return seq_op_kw(cx, f.attr, recv, n.args, n.keywords, env, pc)
             if f.attr == "MetaData":
                 return recv
             return seq_op(cx, f.attr, recv, [ev(cx, a, env, pc) for a in n.args], pc)
